@@ -359,8 +359,11 @@ class G:
                 "hr%d = fn(a: int) -> str {" % n, "  return \"r\"", "}",
                 "hk%d = ha%d(hg%d)" % (n, n, n),
                 "hv%d: fn(int) -> int = hg%d" % (n, n),
-                "hm%d = fn() -> fn(int) -> int {" % n, "  return hg%d" % n, "}",
-                "hw%d: fn(int) -> int? = hg%d" % (n, n)]
+                "hm%d = fn() -> fn(int) -> int {" % n, "  return hg%d" % n, "}"]
+        if self.r.random() < 0.3:
+            # (legal the other way round: a function with a plain result where an optional result is expected; kept out of
+            #  most instances so that a tree which wrongly rejects it still gets the mutants above checked)
+            base.append("hw%d: fn(int) -> int? = hg%d" % (n, n))
 
         def mut(i, line):
             m = list(base)
